@@ -43,7 +43,7 @@ func init() {
 		Floors: func(tier string) map[string]int {
 			return map[string]int{"forwarded_commits": 60, "release_gate_passages": 20, "forwarded_journal": 10, "forwarded_wal": 10, "grants": 40, "local_writer_blocked": 4,
 				"forged_tx_rejected": 12, "reacquire_same_lock": 4, "primary_writes_after_release": 8, "expired_holder_rejected": 4, "third_replica_converged": 4, "acquire_raced_with_local_commit": 4,
-				"stale_release_ignored": 3, "catchup_waited_for_reader": 1, "refused_forward_left_nothing": 1, "local_drop_blocked": 1}
+				"stale_release_ignored": 3, "catchup_waited_for_reader": 1, "refused_forward_left_nothing": 1, "local_drop_blocked": 1, "unlock_interrupted_then_repeated": 1}
 		},
 	})
 }
@@ -647,7 +647,34 @@ func runC13(c *core.Case) {
 				gatePosAfter = mon.PosOf(e.p.Node, "db")
 				gs.Unlock()
 			})
-			armed.Store(true)
+			interrupted := false
+			if script == "release-then-write" && (c.Index/len(c13Scripts))%2 == 0 && e.lockf != nil {
+				interrupted = true
+				// The application's unlock is interrupted (a signal inside the system
+				// call: FUSE INTERRUPT cancels the request) while the release is on its
+				// way to the primary; the kernel then repeats the unlock. The repeated
+				// unlock is the one that has to release the lock.
+				e.p.Proxy.SetMode("stall")
+				ictx, icancel := context.WithCancel(context.Background())
+				idone := make(chan error, 1)
+				go func() { idone <- e.lockf.UnlockCtx(ictx, e.owner, 72, 72) }()
+				time.Sleep(30 * time.Millisecond)
+				icancel()
+				var ierr error
+				select {
+				case ierr = <-idone:
+				case <-time.After(10 * time.Second):
+					e.p.Proxy.SetMode("pass")
+					c.Inconclusive("the interrupted unlock did not return")
+					return
+				}
+				e.p.Proxy.SetMode("pass")
+				c.Logf("interrupted unlock returned %v", ierr)
+				c.Count("unlock_interrupted_then_repeated", 1)
+			}
+			// (after an interrupted attempt its request may still arrive and release the
+			// lock on its own schedule: the gate probe is for the undisturbed release)
+			armed.Store(!interrupted)
 			err := e.release()
 			armed.Store(false)
 			pdb.VerifOnLockStateChange(nil)
